@@ -15,7 +15,7 @@ OCAML = os.path.join(ROOT, "ocaml")
 BUILD = os.path.join(ROOT, "build")
 OUT = os.path.join(ROOT, "out")
 EVID = os.path.join(ROOT, "evidence")
-REPO = "/repo"
+REPO = os.environ.get("VERIF_REPO", "/repo")  # VERIF_REPO: self-tests against a mutated copy
 
 GOENV = dict(os.environ, GOFLAGS="-mod=mod", GOPROXY="off", GOSUMDB="off",
              GOTOOLCHAIN="local", CGO_ENABLED="0")
@@ -56,18 +56,37 @@ def ensure_dirs():
 # ---------------------------------------------------------------------------
 # Coq side
 
-def coq_project_files():
+def coq_sources():
+    """All .v files of the development (relative to coq/), except generated extraction drivers."""
     files = []
-    with open(os.path.join(COQ, "_CoqProject")) as f:
-        for line in f:
-            line = line.strip()
-            if line.endswith(".v"):
-                files.append(line)
+    for dirpath, dirs, names in os.walk(COQ):
+        dirs.sort()
+        for n in sorted(names):
+            if n.endswith(".v"):
+                rel = os.path.relpath(os.path.join(dirpath, n), COQ)
+                if rel.startswith("extract" + os.sep):
+                    continue
+                files.append(rel)
     return files
+
+
+def coq_project_files():
+    return coq_sources()
+
+
+def write_coq_project():
+    """_CoqProject is generated: every .v under coq/ (coqdep orders them)."""
+    text = "-Q . JV\n-arg -w -arg -notation-overridden,-deprecated-hint-without-locality,-deprecated-instance-without-locality\n" + "\n".join(coq_sources()) + "\n"
+    p = os.path.join(COQ, "_CoqProject")
+    old = open(p).read() if os.path.exists(p) else None
+    if old != text:
+        with open(p, "w") as f:
+            f.write(text)
 
 
 def coq_make(clean=False):
     """Full .vo build of the development (never -vos). Returns (ok, log)."""
+    write_coq_project()
     if not os.path.exists(os.path.join(COQ, "Makefile")) or \
             os.path.getmtime(os.path.join(COQ, "Makefile")) < os.path.getmtime(os.path.join(COQ, "_CoqProject")):
         rc, out = sh(["coq_makefile", "-f", "_CoqProject", "-o", "Makefile"], cwd=COQ)
@@ -193,17 +212,60 @@ def _newest(paths):
     return max((os.path.getmtime(p) for p in paths if os.path.exists(p)), default=0)
 
 
+def write_extract_v():
+    """build/Extract.v is generated from the pieces coq/extract/*.list."""
+    imports, names = [], []
+    d = os.path.join(COQ, "extract")
+    for n in sorted(os.listdir(d)):
+        if not n.endswith(".list"):
+            continue
+        with open(os.path.join(d, n)) as f:
+            for line in f:
+                line = line.strip()
+                if not line or line.startswith("#"):
+                    continue
+                if line.startswith("From") or line.startswith("Require"):
+                    if line not in imports:
+                        imports.append(line)
+                elif line not in names:
+                    names.append(line)
+    text = ("(* generated by vlib/common.py from coq/extract/*.list - ExtrOcamlBasic only, no Extract Constant *)\n"
+            "From Coq Require Import Extraction ExtrOcamlBasic.\n" + "\n".join(imports) +
+            "\nExtraction Language OCaml.\nSeparate Extraction\n  " + "\n  ".join(names) + ".\n")
+    p = os.path.join(BUILD, "Extract.v")
+    old = open(p).read() if os.path.exists(p) else None
+    if old != text:
+        with open(p, "w") as f:
+            f.write(text)
+    return p
+
+
+def write_dune():
+    names = sorted(n[:-3] for n in os.listdir(OCAML) if n.startswith("run_") and n.endswith(".ml"))
+    text = "(executables\n (names %s)\n (libraries model str)\n (ocamlopt_flags (:standard -O3 -unboxed-types))\n (flags (:standard -w -a)))\n" % " ".join(names)
+    text = "(executables\n (names %s)\n (libraries model str)\n (flags (:standard -w -a)))\n" % " ".join(names)
+    p = os.path.join(OCAML, "dune")
+    old = open(p).read() if os.path.exists(p) else None
+    if old != text:
+        with open(p, "w") as f:
+            f.write(text)
+
+
 def ocaml_build():
     """Extract the models (when a .vo is newer than the last extraction) and build the runners."""
+    ensure_dirs()
     gen = os.path.join(OCAML, "gen")
+    os.makedirs(gen, exist_ok=True)
     stamp = os.path.join(gen, ".stamp")
+    ev = write_extract_v()
+    write_dune()
     vos = [os.path.join(COQ, f[:-2] + ".vo") for f in coq_project_files()]
-    srcs = vos + [os.path.join(COQ, "extract", "Extract.v")]
+    srcs = vos + [ev]
     if not os.path.exists(stamp) or os.path.getmtime(stamp) < _newest(srcs):
         for n in os.listdir(gen):
             if n.endswith(".ml") or n.endswith(".mli"):
                 os.remove(os.path.join(gen, n))
-        rc, out = sh(["coqc", "-Q", COQ, "JV", os.path.join(COQ, "extract", "Extract.v")], cwd=gen, timeout=900)
+        rc, out = sh(["coqc", "-Q", COQ, "JV", ev], cwd=gen, timeout=900)
         if rc != 0:
             return False, "extraction failed:\n" + out
         with open(stamp, "w") as f:
@@ -247,19 +309,30 @@ def run_model(name, cases_path, timeout=1800, args=()):
 # ---------------------------------------------------------------------------
 # Go harnesses (always rebuilt from /repo's working tree)
 
-def go_build_pure():
-    d = os.path.join(ROOT, "harness", "pure")
+def _go_build(d, cmd, go="go"):
     sh(["cp", os.path.join(REPO, "go.sum"), os.path.join(d, "go.sum")])
-    rc, out = sh(["go", "build", "-tags", "verif", "-o", os.path.join(BUILD, "pure"), "."], cwd=d, env=GOENV, timeout=900)
+    modp = os.path.join(d, "go.mod")
+    orig = open(modp).read()
+    try:
+        if REPO != "/repo":
+            with open(modp, "w") as f:
+                f.write(orig.replace("=> /repo", "=> " + REPO))
+        rc, out = sh([go] + cmd, cwd=d, env=GOENV, timeout=900)
+    finally:
+        if REPO != "/repo":
+            with open(modp, "w") as f:
+                f.write(orig)
     return rc == 0, out
+
+
+def go_build_pure():
+    return _go_build(os.path.join(ROOT, "harness", "pure"),
+                     ["build", "-tags", "verif", "-o", os.path.join(BUILD, "pure"), "."])
 
 
 def go_build_conc():
-    d = os.path.join(ROOT, "harness", "conc")
-    sh(["cp", os.path.join(REPO, "go.sum"), os.path.join(d, "go.sum")])
-    rc, out = sh(["go1.26", "test", "-c", "-tags", "verif", "-o", os.path.join(BUILD, "conc.test"), "."],
-                 cwd=d, env=GOENV, timeout=900)
-    return rc == 0, out
+    return _go_build(os.path.join(ROOT, "harness", "conc"),
+                     ["test", "-c", "-tags", "verif", "-o", os.path.join(BUILD, "conc.test"), "."], go="go1.26")
 
 
 def run_pure(cmd, out_path, seed, tier, n=None, replay=None, timeout=1800, extra=()):
